@@ -698,6 +698,11 @@ def rule_lookahead_putback(ctx: Ctx, rule: str) -> None:
                    f'{len(res)} rows agree' if res and not bad else (str(bad[0])[:80] if bad else 'the exit of the loop is never reached in the table'),
                    witness="globmatch('a/b', 'a//b') / fnmatch('ab', '**b'): the character after the run would be swallowed")
     ctx.floor(rule, 'scan loops', n, 3)
+    # which runs are folded: a run of `/` in POSIX mode; a run of `/` and `\\` mixed in Windows mode; a run of `*`
+    kinds = sorted({k.rsplit('putback[', 1)[1][:-1] for k in ctx.keys_of(rule) if '/putback[' in k})
+    want = sorted(["'/'", "'/''\\\\'", "'*'"])
+    ctx.ob(rule, f'{WP}:WcParse/folded-runs', kinds == want, repo.loc(WP, repo.func(WP, 'WcParse.consume_path_sep').node),
+           f'scan loops fold runs of {want}', str(kinds), witness="globmatch('a/b', 'a//b', FORCEWIN) must be True like under FORCEUNIX: in Windows mode `/` and `\\` both continue a separator run")
 
 
 def inverse_cleanup_table(repo: Repo) -> list:
@@ -823,7 +828,7 @@ def rule_sequence_shape(ctx: Ctx, rule: str) -> None:
     so = repo.const(WP, 'SET_OPERATORS')
     ctx.ob(rule, f'{WP}:SET_OPERATORS', so == frozenset(('&', '~', '|')), repo.loc(WP, repo.const_line(WP, 'SET_OPERATORS')), "{'&', '~', '|'}", str(sorted(so)),
            witness="fnmatch('&', '[&&]') must not trigger Python's nested-set syntax")
-    seqrules.rule_scan_loops(ctx, rule, which={'set-operators-escaped', 'posix-marker-cleared', 'posix-in-loop', 'range-end-cleared-by-posix'})
+    seqrules.rule_scan_loops(ctx, rule, which={'set-operators-escaped', 'posix-marker-cleared', 'posix-in-loop', 'range-end-cleared-by-posix', 'range-end-cleared-by-check'})
     # hyphens, on the table of one loop iteration: a `-` is emitted raw only as a range delimiter (and that iteration records where
     # the range ends); every other `-` is emitted as `\\-`
     from ..symeval import focus, Tok
